@@ -2,6 +2,8 @@ use crate::protocols::{Peers, GET_BLOCKS_PROOF_LIMIT};
 use ckb_network::{CKBProtocolContext, SupportProtocols};
 use ckb_types::{packed, prelude::*, H256};
 use log::{debug, error};
+#[cfg(feature = "verif")]
+use crate::verif_hooks::rand_shim as rand;
 use rand::seq::SliceRandom;
 use std::collections::HashMap;
 use std::sync::Arc;
